@@ -392,6 +392,7 @@ Definition note_ids (rs ms : list Z) (s : st) : st :=
 Definition step (s : st) (o : op) : st * res :=
   match o with
   | NewRxn r l u st0 =>
+      if rin s r then (s, Ok) else          (* one object per identifier: the id of a model reaction is taken *)
       let s0 := note_ids [r] (map fst st0) s in
       let s1 := set_lbub s0 (upd (lb s0) r l) (upd (ub s0) r u) in
       (set_sto s1 (upd (sto s1) r (fun m => fold_left (fun a mc => if fst mc =? m then snd mc else a) st0 q0)), Ok)
